@@ -96,16 +96,16 @@ func (e *Engine) execBinOp(fr *Frame, st *State, ins *ssa.BinOp) Val {
 		case isInteger(xt):
 			return boolv(sx(op, x.T, y.T))
 		case isString(xt):
-			e.ctx.Global("str.lt", "(declare-fun str.lt (Str Str) Bool)")
+			e.ctx.Global("gs.lt", "(declare-fun gs.lt (Str Str) Bool)")
 			switch ins.Op {
 			case token.LSS:
-				return boolv(sx("str.lt", x.T, y.T))
+				return boolv(sx("gs.lt", x.T, y.T))
 			case token.GTR:
-				return boolv(sx("str.lt", y.T, x.T))
+				return boolv(sx("gs.lt", y.T, x.T))
 			case token.LEQ:
-				return boolv(not(sx("str.lt", y.T, x.T)))
+				return boolv(not(sx("gs.lt", y.T, x.T)))
 			default:
-				return boolv(not(sx("str.lt", x.T, y.T)))
+				return boolv(not(sx("gs.lt", x.T, y.T)))
 			}
 		case isFloat(xt):
 			switch ins.Op {
@@ -419,9 +419,9 @@ func (e *Engine) equal(x, y Val, xt, yt types.Type) string {
 func (e *Engine) strConcat(a, b string) string {
 	n := e.ctx.Declare("cat", "Str")
 	e.ctx.Assume(and(
-		eq(sx("str.len", n), sx("+", sx("str.len", a), sx("str.len", b))),
-		fmt.Sprintf("(forall ((i Int)) (! (=> (and (<= 0 i) (< i (str.len %s))) (= (str.at %s i) (str.at %s i))) :pattern ((str.at %s i))))", a, n, a, n),
-		fmt.Sprintf("(forall ((i Int)) (! (=> (and (<= 0 i) (< i (str.len %s))) (= (str.at %s (+ (str.len %s) i)) (str.at %s i))) :pattern ((str.at %s i))))", b, n, a, b, b)))
+		eq(sx("gs.len", n), sx("+", sx("gs.len", a), sx("gs.len", b))),
+		fmt.Sprintf("(forall ((i Int)) (! (=> (and (<= 0 i) (< i (gs.len %s))) (= (gs.at %s i) (gs.at %s i))) :pattern ((gs.at %s i))))", a, n, a, n),
+		fmt.Sprintf("(forall ((i Int)) (! (=> (and (<= 0 i) (< i (gs.len %s))) (= (gs.at %s (+ (gs.len %s) i)) (gs.at %s i))) :pattern ((gs.at %s i))))", b, n, a, b, b)))
 	return n
 }
 
@@ -452,8 +452,8 @@ func (e *Engine) execConvert(fr *Frame, st *State, ins *ssa.Convert) Val {
 	case isString(from) && isString(to):
 		return x
 	case isString(to) && isInteger(from):
-		e.ctx.Global("str.ofrune", "(declare-fun str.ofrune (Int) Str)")
-		return scalar(sx("str.ofrune", x.T), "Str")
+		e.ctx.Global("gs.ofrune", "(declare-fun gs.ofrune (Int) Str)")
+		return scalar(sx("gs.ofrune", x.T), "Str")
 	case isString(to):
 		if sl, ok := under(from).(*types.Slice); ok && isByte(sl.Elem()) {
 			return scalar(e.bytesToStr(st, x), "Str")
@@ -514,8 +514,8 @@ func (e *Engine) bytesToStr(st *State, x Val) string {
 	n := e.ctx.Declare("str", "Str")
 	arr := e.ctx.Define("arr", "(Array Int Int)", sx("select", m, x.Fs[0].T))
 	e.ctx.Assume(and(
-		eq(sx("str.len", n), x.Fs[2].T),
-		fmt.Sprintf("(forall ((i Int)) (! (=> (and (<= 0 i) (< i %s)) (= (str.at %s i) (select %s (+ %s i)))) :pattern ((str.at %s i))))", x.Fs[2].T, n, arr, x.Fs[1].T, n)))
+		eq(sx("gs.len", n), x.Fs[2].T),
+		fmt.Sprintf("(forall ((i Int)) (! (=> (and (<= 0 i) (< i %s)) (= (gs.at %s i) (select %s (+ %s i)))) :pattern ((gs.at %s i))))", x.Fs[2].T, n, arr, x.Fs[1].T, n)))
 	return n
 }
 
@@ -526,8 +526,8 @@ func (e *Engine) strToBytes(st *State, s string, to types.Type) Val {
 	sortM := "(Array Int (Array Int Int))"
 	m := e.heapTerm(st, name, sortM)
 	a := e.ctx.Declare("bytes", "(Array Int Int)")
-	ln := sx("str.len", s)
-	e.ctx.Assume(fmt.Sprintf("(forall ((i Int)) (! (=> (and (<= 0 i) (< i %s)) (= (select %s i) (str.at %s i))) :pattern ((select %s i))))", ln, a, s, a))
+	ln := sx("gs.len", s)
+	e.ctx.Assume(fmt.Sprintf("(forall ((i Int)) (! (=> (and (<= 0 i) (< i %s)) (= (select %s i) (gs.at %s i))) :pattern ((select %s i))))", ln, a, s, a))
 	e.heapSet(st, name, sortM, r, sx("store", m, r, a))
 	return Val{K: KSlice, Typ: to, Fs: []Val{intv(r), intv("0"), intv(ln), intv(ln)}}
 }
@@ -766,8 +766,8 @@ func (e *Engine) lookup(fr *Frame, st *State, ins *ssa.Lookup) Val {
 	k := e.val(fr, ins.Index)
 	if isString(ins.X.Type()) {
 		pos := e.posOf(fr, ins.Pos())
-		e.oblige(st, "safety/idx", and(sx("<=", "0", k.T), sx("<", k.T, sx("str.len", x.T))), pos, "string index in range", nil)
-		return intv(sx("str.at", x.T, k.T))
+		e.oblige(st, "safety/idx", and(sx("<=", "0", k.T), sx("<", k.T, sx("gs.len", x.T))), pos, "string index in range", nil)
+		return intv(sx("gs.at", x.T, k.T))
 	}
 	mt := ins.X.Type()
 	v, ok := e.mapLoad(st, mt, x.T, k)
@@ -804,7 +804,7 @@ func (e *Engine) execNext(fr *Frame, st *State, ins *ssa.Next) Val {
 		x := e.val(fr, rng.X)
 		i := e.ctx.Declare("next.i", "Int")
 		r := e.ctx.Declare("next.r", "Int")
-		e.ctx.Assume(implies(ok, and(sx("<=", "0", i), sx("<", i, sx("str.len", x.T)), sx("<=", "0", r), sx("<=", r, "1114111"))))
+		e.ctx.Assume(implies(ok, and(sx("<=", "0", i), sx("<", i, sx("gs.len", x.T)), sx("<=", "0", r), sx("<=", r, "1114111"))))
 		e.note("range over string: iteration order and UTF-8 decoding abstracted")
 		return Val{K: KTuple, Fs: []Val{boolv(ok), intv(i), intv(r)}}
 	}
